@@ -171,6 +171,21 @@ def grid_case(ctx, idx, rng):
     ctx.case(('arnoldi', 'n<=10', 'm>n' if m > n else ('m=n' if m == n else 'm<n'), spectrum, start, 'complex' if cplx else 'real',
               'hermitian' if B is A else 'general'), sample={'n': n, 'm': m, 'B': B, 'v': v})
     check_arnoldi(ctx, B, v, m, rng=rng)
+    if idx % 5 == 2:
+        # phase-structured data: a purely imaginary matrix i*M (M real: the real-time generator -iH of a real Hamiltonian) with a REAL or purely
+        # imaginary start vector -- the Krylov vectors alternate between exactly real and exactly imaginary, and so do the images A V[j]
+        M = rng.normal(size=(n, n))
+        ph = (1j, -1j, 1.0)[(idx // 5) % 3]
+        vr = rng.normal(size=n) * (1j if (idx // 15) % 2 else 1.0)
+        if ph == 1.0:
+            vr = vr * 1j if np.isrealobj(vr) else vr                  # real matrix, purely imaginary start vector
+        ctx.case(('arnoldi', 'n<=10', 'phase-structured', {1j: 'i*real', -1j: '-i*real', 1.0: 'real'}[ph], 'imag-start' if np.iscomplexobj(vr) else 'real-start',
+                  'm>n' if m > n else 'm<=n'), sample={'n': n, 'm': m, 'B': ph * M, 'v': vr})
+        check_arnoldi(ctx, ph * M, vr, m, rng=rng)
+        K = 1j * (M - M.T)                                            # Hermitian and purely imaginary
+        ctx.case(('lanczos', 'n<=10', 'phase-structured', 'i*antisymmetric', 'imag-start' if np.iscomplexobj(vr) else 'real-start', 'm>n' if m > n else 'm<=n'),
+                 sample={'n': n, 'm': m, 'A': K, 'v': vr})
+        check_lanczos(ctx, K, vr, m, rng=rng)
 
 
 def large_case(ctx, idx, rng):
